@@ -1,15 +1,49 @@
 (* C08 - signature and polynomial encodings are canonical.
-
-   FULL STATEMENT (not yet proved): bit_unpack/bit_pack are mutually inverse on in-range vectors
-   and equal Alg 17/19; hint_bit_unpack y = Ok h <-> canonical y, and hint_bit_pack h = Ok y then;
-   sig_decode s = Ok (c,z,h) -> sig_encode c z h = Ok s.
-   Proved so far: the layout arithmetic of the three parameter sets (the lengths the codecs
-   check with debug_assert! hold for the generated parameter records), so the codec models can
-   never answer Panic because of a size mismatch. *)
-Require Import F204.Base.Util F204.Base.Mach F204.Gen.Params F204.Impl.Helpers F204.Impl.Encodings.
+   Proved here (Proofs/BitPackProofs.v): coefficient bit-packing of the crate is a bijection between
+   in-range coefficient vectors and byte strings - encode-then-decode returns the vector,
+   every accepted byte string re-encodes to itself (so two byte strings never decode to the same
+   vector), and where a+b+1 is a power of two every byte string is accepted.
+   NOT yet proved: the corresponding statements for hint_bit_pack/unpack (canonical hint
+   sections) and their composition into sig_decode/sig_encode; those are decided by the codec
+   streams (model vs code vs FIPS Alg 20/21, malformed-hint grammar, re-encode on the real code). *)
+Require Import F204.Base.Util F204.Base.Mach F204.Gen.Params F204.Impl.Helpers F204.Impl.Conversion F204.Impl.Encodings
+  F204.Proofs.BitPackProofs.
 Open Scope Z_scope.
 
-Theorem C08_layout_partial : forall P, In P all_params ->
+Theorem C08_bit_pack_then_unpack : forall a b w,
+  valid_ab a b -> length w = 256%nat -> is_in_range w a b = true ->
+  exists v, bit_pack w a b (32 * bitlen (a + b)) = Ok v /\ bit_unpack v a b = Ok w
+            /\ bytes_ok v /\ Z.of_nat (length v) = 32 * bitlen (a + b).
+Proof. exact bit_pack_unpack. Qed.
+
+Theorem C08_bit_unpack_then_pack : forall a b v w,
+  valid_ab a b -> bytes_ok v -> bit_unpack v a b = Ok w -> bit_pack w a b (32 * bitlen (a + b)) = Ok v.
+Proof. exact bit_unpack_pack. Qed.
+
+(* decoding is injective: two different byte strings are never read as the same vector *)
+Theorem C08_bit_unpack_injective : forall a b v v' w,
+  valid_ab a b -> bytes_ok v -> bytes_ok v' -> bit_unpack v a b = Ok w -> bit_unpack v' a b = Ok w -> v = v'.
+Proof.
+  intros a b v v' w Hab Hv Hv' H1 H2.
+  pose proof (bit_unpack_pack a b v w Hab Hv H1) as E1. pose proof (bit_unpack_pack a b v' w Hab Hv' H2) as E2.
+  rewrite E1 in E2. now inversion E2.
+Qed.
+
+Theorem C08_bit_unpack_total : forall a b v,
+  valid_ab a b -> a + b + 1 = 2 ^ bitlen (a + b) -> bytes_ok v -> Z.of_nat (length v) = 32 * bitlen (a + b) ->
+  exists w, bit_unpack v a b = Ok w /\ length w = 256%nat /\ is_in_range w a b = true.
+Proof. exact bit_unpack_total. Qed.
+
+(* the (a,b) pairs the crate uses: all valid; t1, t0, z and w1 ranges are full (every byte string decodes) *)
+Theorem C08_pairs_used :
+  valid_ab 0 1023 /\ valid_ab 2 2 /\ valid_ab 4 4 /\ valid_ab 4095 4096 /\ valid_ab 131071 131072 /\ valid_ab 524287 524288
+  /\ valid_ab 0 15 /\ valid_ab 0 43
+  /\ 0 + 1023 + 1 = 2 ^ bitlen (0 + 1023) /\ 4095 + 4096 + 1 = 2 ^ bitlen (4095 + 4096)
+  /\ 131071 + 131072 + 1 = 2 ^ bitlen (131071 + 131072) /\ 524287 + 524288 + 1 = 2 ^ bitlen (524287 + 524288)
+  /\ 0 + 15 + 1 = 2 ^ bitlen (0 + 15).
+Proof. unfold valid_ab. repeat split; vm_compute; congruence. Qed.
+
+Theorem C08_layout : forall P, In P all_params ->
   p_pk_len P = 32 + 32 * kz P * BLQD /\
   p_sk_len P = sk_len_formula P /\
   p_sig_len P = sig_len_formula P /\
@@ -19,4 +53,9 @@ Proof.
   intros P [<- | [<- | [<- | []]]]; vm_compute; repeat split; congruence.
 Qed.
 
-Print Assumptions C08_layout_partial.
+Print Assumptions C08_bit_pack_then_unpack.
+Print Assumptions C08_bit_unpack_then_pack.
+Print Assumptions C08_bit_unpack_injective.
+Print Assumptions C08_bit_unpack_total.
+Print Assumptions C08_pairs_used.
+Print Assumptions C08_layout.
